@@ -11,7 +11,8 @@ RULE = ("families of 2-4 sources: a random master (line/quadratic/cubic contours
         "2x2 differs in one master (another matrix of the same determinant sign, or ONE entry changed), a glyph that is mixed in one "
         "master only, a segment that collapses in one master only (coinciding points / retracted handles), a full master lacking a "
         "glyph, a dangling component reference, sparse layers at 1/4, 1/2, 3/4 or -1/2 of a one-axis designspace (default source "
-        "anywhere in the source list), a sparse layer without designspace; through InterpolatableTTFCompiler.compile "
+        "anywhere in the source list; each sparse source either a layer of a master UFO or a stand-alone sparse UFO without layerName, "
+        "biased to hold a composite whose bases it lacks), a sparse layer without designspace; through InterpolatableTTFCompiler.compile "
         "(= compileInterpolatableTTFs), compileInterpolatableTTFsFromDS and compileInterpolatableOTFsFromDS (optimizeCFF 0/1) x "
         "{flattenComponents, skipExportGlyphs, convertCubics, reverseDirection, a custom DecomposeTransformedComponents filter in "
         "every / some UFO lib, pre or post, with per-UFO include lists} x ufoLib2/defcon. Observed: the glyph sets the compiler hands "
@@ -109,7 +110,7 @@ def shrink(case):
         if n in used:
             continue
         c = copy.deepcopy(case)
-        c["masters"] = [[g for g in m if g["name"] != n] for m in c["masters"]]
+        c["masters"] = [[g for g in m if g["name"] != n] or m for m in c["masters"]]
         for s in c["sources"]:
             if "glyphs" in s:
                 s["glyphs"] = [g for g in s["glyphs"] if g["name"] != n] or s["glyphs"]
